@@ -45,7 +45,7 @@ RULE = ('every command of every loaded plugin (extracted table rows + run-time-o
         'converter branch; distinct = distinct (row, role, form, wrapper, args)')
 
 PLUGINS_QUICK = ['Owner', 'Misc', 'User', 'Admin', 'Config', 'Channel', 'Utilities', 'Scheduler', 'Alias', 'Aka',
-                 'Plugin', 'Network', 'Karma', 'Later', 'BadWords', 'Conditional', 'Filter', 'Math', 'Relay', 'Services', 'Unix']
+                 'Plugin', 'Network', 'Karma', 'Later', 'BadWords', 'Conditional', 'Filter', 'Math', 'Relay', 'Services', 'Unix', 'MessageParser']
 HERE = os.path.dirname(os.path.abspath(__file__))
 NICK = 'test'
 CHAN = '#c'
@@ -56,6 +56,7 @@ OTHERCHAN = '#d'
 # ------------------------------------------------------------------------------------------
 DEBUG = {}
 SITE_OUT = [None]
+FINDING_STATUS = {}
 class Obs(object):
     entered = []       # (plugin, command tuple, msg.prefix, msg.channel) at the entry of Commands._callCommand
     gate = []          # (plugin, command tuple) for which Commands.callCommand was reached
@@ -1046,6 +1047,125 @@ def explore(ctx, b, w, table, required, n_extra):
                 lines.append('ignored\t' + wire.enc(prefix))
                 pend.append((c, lambda o, ign: 'silent' if (o.startswith('1') or o.startswith('crash')) else 'ran'))
 
+    # ================= the other re-dispatch sites: Network.command, Scheduler.repeat, Admin.acmd, MessageParser =================
+    FINDING_STATUS.clear()
+    if 'VtGate' in have:
+        vt_spec, vt_ae = row_spec('VtGate', ('vtowner',), loaded[('VtGate', ('vtowner',))])
+        def rd_case(label, deliver_fn, gate_prefix, gate_target, site, cur, stored, must, finding=None, note=''):
+            '''one observation of VtGate.vtowner reached through a re-dispatch site.
+            gate_prefix/gate_target: what the model is asked about; cur/stored: (prefix, args[0]) pairs for the site op'''
+            last_dump[0] = None
+            send_db()
+            lines.append('ignored\t' + wire.enc(gate_prefix)); pend.append(None)
+            mchan = gate_target if gate_target[:1] == '#' else None
+            Obs.execute = None
+            before = snapshot(b)
+            out = deliver_fn()
+            changed = [k2 for k2 in snap_diff(before, snapshot(b)) if k2 not in ('events', 'sched', 'files')]
+            ent = [(e[2], e[3]) for e in Obs.entered if (e[0], e[1]) == ('VtGate', ('vtowner',))]
+            ran = ('VtGate', ('vtowner',)) in Obs.bodies
+            cls = classify(out)
+            if not ent:
+                impl = 'not-dispatched'
+            else:
+                impl = ('body' if ran else ('nocap:' + cls[1] if cls[0] == 'nocap' else 'stopped')) + ' @%s %s' % ent[0]
+            ok = True; msg = ''
+            if must == 'deny' and (ran or [k2 for k2 in changed if k2 != 'registry'] or (ran and changed)):
+                ok = False
+                msg = '%s: %s; the privileged body ran=%r, state changed=%r, replies=%r' % (label, note, ran, changed, [str(m).strip() for m in out])
+            elif must == 'allow' and not ran:
+                ok = False
+                msg = '%s: %s; expected the command to run for its entitled caller, got %r' % (label, note, cls)
+            c = Case({'op': 'redispatch', 'label': label, 'site': site, 'gate_prefix': gate_prefix, 'gate_target': gate_target, 'note': note},
+                     impl=impl, oracle_ok=ok, oracle_msg=msg, kind='redispatch', finding=finding,
+                     tags=['redispatch', 'site:' + site, 'rd:' + label, 'oracle:' + must])
+            cases.append(c)
+            DEBUG[id(c)] = [str(m).strip() for m in out]
+            lines.append('site\t%s\t%s\t%s\t%s\t%s\t%s\t0' % (site, wire.enc(cur[0]), wire.enc(cur[1]), wire.enc(stored[0]), wire.enc(stored[1]), wire.enc('')))
+            pend.append(None)
+            lines.append('invoke\t%s\t%s\t%s\t%s\t%s\t%d\t%s' % (wire.enc(gate_prefix), wire.enc_opt(mchan), wire.enc('VtGate'), wire.enc_list(['vtowner']),
+                                                                   enc_spec(vt_spec), 1 if vt_ae else 0, wire.enc_list([])))
+            def fillr(o, ign):
+                so = SITE_OUT[0]
+                if so in (None, 'none', 'bad-op'):
+                    return 'not-dispatched'
+                f = o.split('\t'); i = f.index('|'); g = f[:i]; oc = f[i + 1:]
+                sf = so.split('\t')
+                suffix = ' @%s %s' % (wire.dec(sf[0]), wire.dec_opt(sf[1]))
+                if g[0] == 'denied': return 'nocap:' + wire.dec(g[1]) + suffix
+                if g[0] != 'allow': return 'gate:' + g[0] + suffix
+                if oc[0] == 'body': return 'body' + suffix
+                if oc[0] == 'noCapability': return 'nocap:' + wire.dec(oc[1]) + suffix
+                return 'stopped' + suffix
+            pend.append((c, fillr))
+            return c
+
+        # ---- Network.command / cmdall: the same message, another Irc object ----
+        if 'Network' in have:
+            for role, must in (('owner', 'allow'), ('admin', 'deny')):
+                for tgt, txt in ((NICK, 'network command test vtowner'), (CHAN, '@network cmdall vtowner')):
+                    pr = ROLES[role]
+                    rd_case('netcommand-' + role, lambda pr=pr, tgt=tgt, txt=txt: deliver(b, pr, tgt, txt), pr, tgt, 'netcommand', (pr, tgt), ('', ''), must,
+                            note='%s runs %r: the inner command is gated against the caller' % (role, txt))
+        # ---- Scheduler.repeat: runs now and every n seconds, always against the stored message ----
+        if 'Scheduler' in have:
+            sched_cb = [cb for cb in irc.callbacks if cb.name() == 'Scheduler'][0]
+            def fire():
+                Obs.gate = []; Obs.bodies = []; Obs.entered = []
+                b.schedule.run(); wait_threads()
+                return bot.drain(b)
+            def stop(name):
+                try:
+                    b.schedule.removeEvent(name)
+                except Exception:
+                    pass
+                sched_cb.events.pop(name, None)
+            uo = user_by_name(b, 'vreg'); uo.addCapability('scheduler.repeat'); ircdb.users.setUser(uo)
+            pr = ROLES['plain']
+            deliver(b, pr, CHAN, '@scheduler repeat vtrep 50 vtowner')
+            rd_case('repeat-first-run', fire, pr, CHAN, 'scheduled', ('', ''), (pr, CHAN), 'deny', note='plain user holding scheduler.repeat repeats an owner command')
+            Clock.offset += 60
+            rd_case('repeat-second-run', fire, pr, CHAN, 'scheduled', ('', ''), (pr, CHAN), 'deny', note='second firing of the same event')
+            stop('vtrep')
+            uo = user_by_name(b, 'vreg'); uo.removeCapability('scheduler.repeat'); ircdb.users.setUser(uo)
+            po = ROLES['owner']
+            deliver(b, po, NICK, 'scheduler repeat vtrep2 50 vtowner')
+            rd_case('repeat-owner', fire, po, NICK, 'scheduled', ('', ''), (po, NICK), 'allow', note='the owner repeats an owner command')
+            uo = user_by_name(b, 'vown'); uo.removeCapability('owner'); ircdb.users.setUser(uo)
+            Clock.offset += 60
+            try:
+                rd_case('repeat-owner-revoked', fire, po, NICK, 'scheduled', ('', ''), (po, NICK), 'deny', note='the repeating caller lost owner before the next firing')
+            finally:
+                uo = user_by_name(b, 'vown'); uo.addCapability('owner'); ircdb.users.setUser(uo)
+                stop('vtrep2')
+        # ---- Admin.acmd: assigns to msg.args[0] (a tuple) -> TypeError before anything is dispatched ----
+        if 'Admin' in have:
+            botpfx = irc.prefix if getattr(irc, 'prefix', None) and '!' in irc.prefix else '%s!bot@bot.host' % NICK
+            irc.feedMsg(b.ircmsgs.join(CHAN, prefix=botpfx)); bot.drain(b)
+            pr = ROLES['admin']
+            rd_case('acmd', lambda: deliver(b, pr, NICK, 'acmd vtowner'), pr, NICK, 'acmd', (pr, NICK), ('', ''), 'deny',
+                    note='admin runs acmd with the bot in a channel')
+            irc.feedMsg(b.ircmsgs.part(CHAN, prefix=botpfx)); bot.drain(b)
+        # ---- MessageParser: the stored action runs with the SPEAKER's message ----
+        if 'MessageParser' in have:
+            added_plain = classify(deliver(b, ROLES['plain'], CHAN, '@messageparser add vtmagic vtowner'))
+            c0 = Case({'op': 'redispatch', 'label': 'trigger-add-plain'}, impl=added_plain[0], model='nocap', kind='redispatch',
+                      oracle_ok=(added_plain[0] == 'nocap'), oracle_msg='a plain user added a MessageParser trigger: %r' % (added_plain,),
+                      tags=['redispatch', 'rd:trigger-add-plain', 'oracle:deny'])
+            cases.append(c0)
+            added = classify(deliver(b, ROLES['chanop'], CHAN, '@messageparser add vtmagic vtowner'))
+            if added[0] == 'reply':
+                for who, must, fnd in (('plain', 'deny', None), ('chanop', 'deny', None), ('ignored', 'deny', None), ('owner', 'deny', 'C01-trigger-runs-as-speaker')):
+                    pr = ROLES[who]
+                    c1 = rd_case('trigger-speaker-' + who, lambda pr=pr: deliver(b, pr, CHAN, 'did anybody say vtmagic today'), pr, CHAN, 'trigger',
+                                 (pr, CHAN), (ROLES['chanop'], CHAN), must, finding=fnd,
+                                 note='trigger stored by the channel op %s (no owner capability) with action "vtowner"; %s (%s) says a matching line in %s'
+                                      % (ROLES['chanop'], who, pr, CHAN))
+                    if fnd:
+                        FINDING_STATUS[fnd] = (c1.oracle_ok is False,
+                                               'a MessageParser trigger stored by a caller without the owner capability ran an owner-only command when the owner spoke a matching line (the action is dispatched with the speaker\'s message)')
+                deliver(b, ROLES['owner'], CHAN, '@messageparser remove vtmagic')
+
     # ================= callers recognised by LOGIN (identify) and by a hostmask that is later removed =================
     # histories: not identified -> identify -> commands (caches warm) -> the login times out / unidentify /
     # the registered hostmask is removed -> the same commands must be refused again
@@ -1303,7 +1423,7 @@ def run(ctx):
     def search(disagreements, broken):
         # the oracle already ran on every case; anything it found is in `cases`
         return [c for c in cases if c.oracle_ok is False]
-    return verdict.conclude(PROPERTY, ctx.tier, ctx.seed, build, cases, search=search, rule=RULE,
+    return verdict.conclude(PROPERTY, ctx.tier, ctx.seed, build, cases, search=search, rule=RULE, finding_status=dict(FINDING_STATUS),
                             trusted_base=TRUSTED,
                             assumptions=['Python asserts enabled', 'default reply configuration (supybot.reply.error.noCapability off)',
                                          'single network; channel names use the default chantypes'],
